@@ -265,13 +265,93 @@ pub fn run(o: &Opts) -> i32 {
         d.extend_from_slice(&w);
         check_string(l, &d, rng);
     }));
+    // one slice of more than 4 GiB (lengths that do not fit into 32 bits), then a few more bytes
+    let thorough = o.is_thorough();
+    #[cfg(target_pointer_width = "64")]
+    streams.push(
+        Stream::new("huge-slice", if thorough { 4 } else { 2 }, move |i, rng: &mut Rng, l: &mut Local| {
+            let extra = 16 + rng.usize_below(40);
+            // 4 GiB + k (quick) and also 8 GiB + k, 12 GiB + k (thorough); lazily mapped zero pages
+            let len = (1usize << 32) * (1 + (i as usize / 2) * (1 + (i as usize % 2))) + extra;
+            let mut big = vec![0u8; len];
+            let n = big.len();
+            for k in 0..extra {
+                big[n - extra + k] = rng.byte() | 1;
+            }
+            let more: Vec<u8> = (0..12).map(|_| rng.byte()).collect();
+            let sig = format!("C19|huge-slice|len={}", len);
+            if i % 2 == 0 {
+                // rolling hash: value after the slice and after every following byte against the definition
+                let r = guard(|| {
+                    let mut h = RollingHash::new();
+                    h.update(&big);
+                    let mut vals = vec![h.value()];
+                    for (k, &c) in more.iter().enumerate() {
+                        match k % 3 {
+                            0 => {
+                                h.update_by_byte(c);
+                            }
+                            1 => h += c,
+                            _ => {
+                                h.update(&[c]);
+                            }
+                        }
+                        vals.push(h.value());
+                    }
+                    vals
+                });
+                match r {
+                    Ok(vals) => {
+                        let mut tail: Vec<u8> = big[n - 7..].to_vec();
+                        for (k, v) in vals.iter().enumerate() {
+                            if k > 0 {
+                                tail.push(more[k - 1]);
+                            }
+                            let w: [u8; 7] = tail[tail.len() - 7..].try_into().unwrap();
+                            l.eval(1);
+                            l.check(*v == roll_of_window(&w), "rolling-hash-definition", || (format!("{}|roll|{}", sig, k), format!("after one slice of {} bytes and {} more byte(s) the rolling hash is {:#010x}, the definition over the last 7 bytes gives {:#010x}", len, k, v, roll_of_window(&w))));
+                        }
+                    }
+                    Err(p) => l.violation("totality", format!("{}|roll-panic", sig), format!("RollingHash panicked on a {}-byte slice: {}", len, p)),
+                }
+            } else {
+                // FNV: zero bytes act as h -> h*0x93 (mod 64), a permutation of period dividing 16
+                let r = guard(|| {
+                    let mut h = PartialFNVHash::new();
+                    h.update(&big);
+                    h.update(&more);
+                    h.value()
+                });
+                let mut st: u32 = 0x2802_1967;
+                let zeros = (n - extra) as u64;
+                for _ in 0..(zeros % 64) {
+                    st = st.wrapping_mul(0x0100_0193);
+                    st &= 0xff; // only the low bits ever matter; keep it small
+                }
+                let mut want = st;
+                for &c in big[n - extra..].iter().chain(more.iter()) {
+                    want = want.wrapping_mul(0x0100_0193) ^ (c as u32);
+                }
+                l.eval(1);
+                match r {
+                    Ok(v) => {
+                        l.check(v as u32 == (want & 63), "fnv-definition", || (format!("{}|fnv", sig), format!("PartialFNVHash after one slice of {} bytes (+12) is {}, FNV-1 gives {}", len, v, want & 63)));
+                    }
+                    Err(p) => l.violation("totality", format!("{}|fnv-panic", sig), format!("PartialFNVHash panicked on a {}-byte slice: {}", len, p)),
+                }
+            }
+            l.nt(0x4000_0000_0000 + len as u64);
+            l.count("huge_slices", 1);
+        })
+        .grain(1),
+    );
     let mut rr = run_streams(o, streams);
     rr.local.inconclusive.extend(pre);
     finish(
         o,
         rr,
         Report {
-            rule: "FNV step: every one of the 64 observable states (reached from new() by BFS) x all 256 bytes x six update forms against the low 6 bits of 32-bit FNV-1 with initial value 0x28021967 (complete). Rolling hash: at EVERY prefix of W1/W2 strings and of all trigger words (incl. value 0 with a non-zero window and 0xffffffff) against sum + position-weighted sum + shift-5-xor fold over the trailing 7 bytes recomputed from scratch; dependence on the window only (7 junk bytes then the window); the update forms (update, update_by_iter with exact-size AND inexact-size iterators - filter, take_while over a longer iterator, flat_map, chain - update_by_byte, += &[u8], += &[u8;N], += u8) agree. Non-trivial = string of >= 8 bytes, or an FNV (state, byte) step; distinct by content.".into(),
+            rule: "FNV step: every one of the 64 observable states (reached from new() by BFS) x all 256 bytes x six update forms against the low 6 bits of 32-bit FNV-1 with initial value 0x28021967 (complete). Rolling hash: at EVERY prefix of W1/W2 strings and of all trigger words (incl. value 0 with a non-zero window and 0xffffffff) against sum + position-weighted sum + shift-5-xor fold over the trailing 7 bytes recomputed from scratch; dependence on the window only (7 junk bytes then the window); the update forms (update, update_by_iter with exact-size AND inexact-size iterators - filter, take_while over a longer iterator, flat_map, chain - update_by_byte, += &[u8], += &[u8;N], += u8) agree. Two single slices of more than 4 GiB and 8 GiB (lengths beyond 32 bits) followed by more bytes. Non-trivial = string of >= 8 bytes, or an FNV (state, byte) step; distinct by content.".into(),
             assumptions: vec![],
             exhaustive: false,
             min_nontrivial: 16_384,
